@@ -49,7 +49,7 @@ theorem selected_cluster_in_config_until_commit (ops : List Op) : usableSC (run 
 theorem commit_at_most_once (ops : List Op) : (run ops).commits.Nodup :=
   (run_inv1 ops).commitsNd
 
-/-! ### what the unchanged code does NOT guarantee (finding F20), on a concrete interleaving -/
+/-! ### what the unchanged code does NOT guarantee (finding F36), on a concrete interleaving -/
 
 /-- route {1}; RPC 1 → cluster 1; route {2}; route {1} reaches the dependency manager; RPC 1 commits
     BEFORE the resolver processes that update (its clusterInfo for 1 drops to 0: unsubscribe is
@@ -71,7 +71,7 @@ theorem witness_facts :
     inflight (run witness) = [1] ∧ (run witness).queue = [] ∧ (run witness).pushedSC = [1, 2] ∧
     (run witness).pushedXC = [2] ∧ (run witness).reusedSpent = true := by decide
 
-/-- A second, transient way to lose the cluster from the XDSConfig (finding F21), without any reuse of
+/-- A second, transient way to lose the cluster from the XDSConfig (finding F37), without any reuse of
     a spent clusterInfo: an update built by the dependency manager before the resolver subscribed to
     cluster 1 is applied after an RPC was routed to it. -/
 theorem stale_snapshot_counterexample :
